@@ -16,7 +16,8 @@ MANIFEST = {
             "queue = allTransactions, every pooled tx in exactly its sender's list at its nonce and vice versa), size <= "
             "MaxTransactions, per-sender size <= limit, one tx per (sender, nonce), a replacement needs fee >= old + "
             "MinReplacementFeeDifference (no uint64 wrap) and the dropped tx leaves every index, eviction always finds a victim, "
-            "processables are a gap-free ascending run of stored nonces whose txs passed verification in a reorg. Blocking: "
+            "processables are a gap-free ascending run of stored nonces whose txs passed verification in a reorg and are exactly "
+            "the sender's lowest pooled nonces (never a run above a pooled, unprocessed lower nonce). Blocking: "
             "the lock skeletons of txpool.go/txlist.go/event.go, regenerated from /repo on every run, are safe programs, hence "
             "(Conc/Progress.v) no pool operation can wait for a lock forever, including when the pool is full. The model is tied to "
             "the Go code by replaying random operation sequences (limits 1..3, evictions, replacements, reorgs interleaved with "
@@ -131,6 +132,8 @@ def classify(r, where):
             ps = l[4]
             if any(b != a + 1 for a, b in zip(ps, ps[1:])):
                 return "c14:%s:processables-gap" % opk, "sender %d has processables %s (not a gap-free run) after step %d" % (l[0], ps, ix)
+            if ps != l[1][:len(ps)]:
+                return "c14:%s:processables-not-lowest" % opk, "sender %d has processables %s but pooled nonces %s (run starts above a pooled lower nonce) after step %d" % (l[0], ps, l[1], ix)
             if len(l[1]) > r["cfg"][1]:
                 return "c14:%s:per-sender-size" % opk, "sender %d holds %d transactions with limit %d after step %d" % (l[0], len(l[1]), r["cfg"][1], ix)
         listed = sorted(i for l in s["lists"] for i in l[2])
